@@ -11,7 +11,7 @@ shape is ANALYSIS-INCOMPLETE."""
 import ast
 
 from ..cfg import Assume
-from ..core import call_name, params, u, walk_expr
+from ..core import call_name, params, u, walk_expr, walk_local
 from ..match import canon, classify, match_any
 from ..normal import MUTATING_METHODS, is_pure
 from ..patterns import (Cmp, calls_in, check_no_arg_mutation, conjuncts,
@@ -1097,8 +1097,307 @@ def d3_reactive_populations(ck, mod, roles):
     ck.floor(rule, n, 1, 'normalised reactive densities')
 
 
+# ---------------------------------------------------------------------------
+# D3 (hidden state): the property quantifies over ALL inputs, in any order of
+# calls - what a TPT function returns must be a function of the arguments of
+# THIS call.  A value that is read from module-level state which some function
+# of the module writes (a memo / "last result" cache, a `global`, an attribute
+# hung on a module-level function, a mutable default argument) reaches the
+# result only if the decision "reuse or recompute" compares the CONTENTS of
+# every argument the stored value was computed from.
+# (candidate for promotion to sa/rules/extra.py)
+
+STATE_MUTATORS = MUTATING_METHODS | {'move_to_end', 'appendleft', 'extendleft', 'popleft', 'difference_update', 'intersection_update',
+                                    'symmetric_difference_update', '__setitem__', '__delitem__'}
+MEMO_DECORATORS = {'lru_cache', 'cache', 'cached', 'memoize', 'memoized', 'memoise', 'cached_property'}
+MUTABLE_CTORS = {'dict', 'list', 'set', 'OrderedDict', 'defaultdict', 'deque', 'Counter', 'WeakValueDictionary', 'WeakKeyDictionary'}
+# calls whose result is determined by (and determines) the contents of an array argument
+CONTENT_DIGESTS = {'tobytes', 'tostring', 'tolist', 'tuple', 'bytes', 'array_equal', 'array_equiv'}
+IDENTITY_CALLS = {'id'}
+
+
+def _module_level_stmts(tree):
+    """Statements executed at import time (not inside def/class)."""
+    stack = list(reversed(tree.body))
+    while stack:
+        s = stack.pop()
+        yield s
+        if isinstance(s, (ast.FunctionDef, ast.AsyncFunctionDef, ast.ClassDef)):
+            continue
+        for f in ('body', 'orelse', 'finalbody', 'handlers'):
+            for ch in reversed(getattr(s, f, []) or []):
+                if isinstance(ch, (ast.stmt, ast.ExceptHandler)):
+                    stack.append(ch)
+
+
+def _scope_names(fn):
+    """(names local to fn, names fn declares global)."""
+    loc, glob = set(params(fn)), set()
+    for n in walk_local(fn):
+        if isinstance(n, (ast.Global, ast.Nonlocal)):
+            glob.update(n.names)
+        elif isinstance(n, ast.Name) and isinstance(n.ctx, (ast.Store, ast.Del)):
+            loc.add(n.id)
+        elif isinstance(n, (ast.FunctionDef, ast.AsyncFunctionDef, ast.ClassDef)):
+            loc.add(n.name)
+        elif isinstance(n, (ast.Import, ast.ImportFrom)):
+            loc.update((a.asname or a.name).split('.')[0] for a in n.names)
+        elif isinstance(n, ast.ExceptHandler) and n.name:
+            loc.add(n.name)
+    return loc - glob, glob
+
+
+def _root(e):
+    while isinstance(e, (ast.Attribute, ast.Subscript, ast.Starred)):
+        e = e.value
+    return e.id if isinstance(e, ast.Name) else None
+
+
+def _mutable_default(fn, p):
+    from ..core import param_default
+    d = param_default(fn, p)
+    if isinstance(d, (ast.Dict, ast.List, ast.Set, ast.ListComp, ast.DictComp, ast.SetComp)):
+        return True
+    return isinstance(d, ast.Call) and (call_name(d) or '').split('.')[-1] in MUTABLE_CTORS
+
+
+def state_writes(fn, module_names):
+    """[(node, name, stored value or None)]: the places where fn writes state
+    that outlives the call - a store through / a mutating method of a name that
+    is bound at module level (and not shadowed by a local), an assignment to a
+    name it declares `global`, a store into a parameter with a mutable default."""
+    loc, glob = _scope_names(fn)
+    sticky = {p for p in params(fn) if _mutable_default(fn, p)}
+
+    def outlives(name):
+        if name is None:
+            return False
+        if name in glob or name in sticky:
+            return True
+        return name in module_names and name not in loc
+
+    out = []
+    for s in walk_local(fn):
+        if isinstance(s, (ast.Assign, ast.AugAssign, ast.AnnAssign)):
+            tgs = s.targets if isinstance(s, ast.Assign) else [s.target]
+            flat = []
+            for t in tgs:
+                flat += list(t.elts) if isinstance(t, (ast.Tuple, ast.List)) else [t]
+            for t in flat:
+                if isinstance(t, (ast.Subscript, ast.Attribute)) and outlives(_root(t)):
+                    out.append((s, _root(t), s.value))
+                elif isinstance(t, ast.Name) and t.id in glob:
+                    out.append((s, t.id, s.value))
+        elif isinstance(s, ast.Delete):
+            for t in s.targets:
+                if isinstance(t, (ast.Subscript, ast.Attribute)) and outlives(_root(t)):
+                    out.append((s, _root(t), None))
+        elif isinstance(s, ast.Call) and isinstance(s.func, ast.Attribute) and s.func.attr in STATE_MUTATORS and outlives(_root(s.func.value)):
+            vals = list(s.args) + [k.value for k in s.keywords]
+            out.append((s, _root(s.func.value), ast.Tuple(elts=vals, ctx=ast.Load()) if len(vals) != 1 else vals[0]))
+    return out
+
+
+def state_reads(fi, expr, is_state, depth=10):
+    """Name(Load) nodes in the backward slice of expr (through the reaching
+    definitions of fi) that read a name which is not bound by this call."""
+    from ..cfg import header_exprs
+    out, seen = [], set()
+
+    def visit(e, d):
+        for n in walk_expr(e):
+            if not (isinstance(n, ast.Name) and isinstance(n.ctx, ast.Load)):
+                continue
+            try:
+                defs = fi.defs_of_use(n)
+            except Exception:
+                defs = set()
+            if not defs or 'UNBOUND' in defs:
+                if is_state(n.id, False):
+                    out.append(n)
+            elif 'PARAM' in defs and is_state(n.id, True):
+                out.append(n)
+            for site in defs:
+                if isinstance(site, str):
+                    continue
+                key = (id(site), n.id)
+                if key in seen or d <= 0:
+                    continue
+                seen.add(key)
+                v = fi.def_value(site, n.id)
+                if v is not None:
+                    visit(v, d - 1)
+                    continue
+                tg = getattr(site, 'targets', None) or [getattr(site, 'target', None)]
+                for e2 in header_exprs(site):
+                    if isinstance(site, (ast.Assign, ast.AugAssign, ast.AnnAssign, ast.For, ast.AsyncFor)) and any(e2 is t for t in tg):
+                        continue
+                    visit(e2, d - 1)
+    visit(expr, depth)
+    return out
+
+
+def _param_occurrences(fi, test, pnames):
+    """{param: set of 'identity' / 'content' / 'other'}: how the parameters
+    enter the value of `test` (names are followed through their definitions,
+    pure or not - only the shape of the dependence matters here): inside
+    id(...) or an `is` comparison the value only identifies the object; inside
+    a content digest (tobytes, tuple, array_equal ...) it stands for the
+    contents; a name that cannot be followed counts as 'other' for every
+    parameter it may derive from."""
+    occ = {}
+    active = set()
+
+    def walk(e, ctx, d):
+        if isinstance(e, ast.Name):
+            if not isinstance(e.ctx, ast.Load):
+                return
+            try:
+                defs = fi.defs_of_use(e)
+            except Exception:
+                defs = set()
+            if defs == {'PARAM'}:
+                if e.id in pnames:
+                    occ.setdefault(e.id, set()).add(ctx)
+                return
+            site = next(iter(defs)) if len(defs) == 1 else None
+            v = fi.def_value(site, e.id) if site is not None and not isinstance(site, str) else None
+            if v is not None and d > 0 and id(site) not in active:
+                active.add(id(site))
+                walk(v, ctx, d - 1)
+                active.discard(id(site))
+            elif defs:
+                for p in fi.derives_from(e)[0]:
+                    if p in pnames:
+                        occ.setdefault(p, set()).add('other')
+            return
+        c = ctx
+        if isinstance(e, ast.Call):
+            last = (call_name(e) or '').split('.')[-1]
+            if last in IDENTITY_CALLS and ctx != 'content':
+                c = 'identity'
+            elif last in CONTENT_DIGESTS and ctx != 'identity':
+                c = 'content'
+        elif isinstance(e, ast.Compare) and all(isinstance(o, (ast.Is, ast.IsNot)) for o in e.ops) and ctx == 'other':
+            # `x is <other object>`; `x is None` says nothing about the contents either
+            c = 'identity'
+        for ch in ast.iter_child_nodes(e):
+            walk(ch, c, d)
+    walk(test, 'other', 10)
+    return occ
+
+
+def d3_hidden_state(ck, mods):
+    rule = 'C08.D3.committors.hidden-state'
+    n_scanned = 0
+    for mod in mods:
+        module_names = set()
+        for s in _module_level_stmts(mod.tree):
+            if isinstance(s, (ast.Assign, ast.AugAssign, ast.AnnAssign)):
+                for t in (s.targets if isinstance(s, ast.Assign) else [s.target]):
+                    module_names.update(n.id for n in ast.walk(t) if isinstance(n, ast.Name) and isinstance(n.ctx, ast.Store))
+            elif isinstance(s, (ast.FunctionDef, ast.AsyncFunctionDef, ast.ClassDef)):
+                module_names.add(s.name)
+        writes = {}             # state name -> [(qualname, node, value)]
+        per_fn = {}
+        n_found = 0
+        for q, fn in mod.functions.items():
+            if '<locals>' in q:
+                continue
+            per_fn[q] = state_writes(fn, module_names)
+            for node, name, val in per_fn[q]:
+                writes.setdefault(name, []).append((q, node, val))
+        for q, fn in mod.functions.items():
+            if '<locals>' in q:
+                continue
+            n_scanned += 1
+            decs = [(call_name(d) if isinstance(d, ast.Call) else u(d)) or '' for d in fn.decorator_list]
+            memo = [d for d in decs if d.split('.')[-1] in MEMO_DECORATORS]
+            if memo:
+                n_found += 1
+                ck.missing(rule, '%s is wrapped in the memoising decorator %s: whether its key covers the contents of every argument is not decided' % (q, memo[0]))
+                continue
+            fi = finfo(mod, fn)
+            loc, glob = _scope_names(fn)
+            own = {name for _, name, _ in per_fn[q]}
+
+            def is_state(name, is_param, _loc=loc, _glob=glob, _own=own):
+                if is_param:
+                    return name in _own             # a parameter with a mutable default that fn stores into
+                return name in writes and (name in _glob or name not in _loc)
+
+            reads = []
+            for r in returns_of(fn):
+                if r.value is not None:
+                    reads += [(r, n) for n in state_reads(fi, r.value, is_state)]
+            if not reads:
+                continue
+            n_found += 1
+            for name in sorted({n.id for _, n in reads}):
+                rnodes = [n for _, n in reads if n.id == name]
+                rstmt = fi.stmt(rnodes[0]) or rnodes[0]
+                mine = [(node, val) for node, nm, val in per_fn[q] if nm == name]
+                others = sorted({w[0] for w in writes.get(name, []) if w[0] != q})
+                if not mine:
+                    ck.missing(rule, 'the value returned by %s is computed from the module-level object `%s`, which %s write(s): the result '
+                               'depends on calls made before this one (not decided how)' % (q, name, ', '.join(others)))
+                    continue
+                # the arguments the stored state is computed from, and the decision under which it is (re)computed
+                P = set(params(fn))
+                dep = set()
+                for node, val in mine:
+                    if val is not None:
+                        dep |= {p for p in fi.derives_from(val)[0] if p in P}
+                guards = []
+                for node, val in mine:
+                    st = fi.stmt(node) or node
+                    for a in fi.cfg.nodes:
+                        if isinstance(a, Assume) and fi.cfg.dominates(a, st) and a.test not in [g.test for g in guards]:
+                            guards.append(a)
+                if not dep:
+                    ck.missing(rule, '%s returns a value read from the module-level object `%s` that it also writes; what is stored does not derive from its parameters' % (q, name))
+                    continue
+                if not guards:
+                    ck.missing(rule, '%s stores into the module-level object `%s` unconditionally and reads it back: not decided whether the value read is the one stored by this call' % (q, name))
+                    continue
+                occ = {}
+                for g in guards:
+                    for p, kinds in _param_occurrences(fi, g.test, dep).items():
+                        occ.setdefault(p, set()).update(kinds)
+                absent = sorted(p for p in dep if p not in occ)
+                ident = sorted(p for p in dep if occ.get(p) and occ[p] <= {'identity'})
+                unknown = sorted(p for p in dep if occ.get(p) and 'other' in occ[p] and 'content' not in occ[p])
+                tests = ' / '.join('`%s`' % u(g.test)[:100] for g in guards)
+                if absent or ident:
+                    why = []
+                    if ident:
+                        why.append('%s enter(s) it only through id()/`is`, which identifies the container object, not its contents (the same array or '
+                                   'sparse matrix refilled in place, or a new one allocated at the address of a freed one, is taken for the previous chain)'
+                                   % ', '.join('`%s`' % p for p in ident))
+                    if absent:
+                        why.append('%s do(es) not enter it at all' % ', '.join('`%s`' % p for p in absent))
+                    where = 'mutable default argument' if name in params(fn) else 'module-level object'
+                    ck.bad(rule, mod, rstmt, q, 'result of %s read from module-level `%s`' % (q, name),
+                           'what %s returns must be computed from the arguments of THIS call (the flux / net flux / reactive population identities '
+                           'hold for every chain, whatever was analysed before). `%s` reaches the result from the %s `%s`, which '
+                           'a previous call filled from (%s); it is recomputed only when %s, and %s: a later call with different contents combines '
+                           'the stale stored value with its own populations and transition probabilities'
+                           % (q, u(rstmt)[:120], where, name, ', '.join(sorted(dep)), tests, '; '.join(why)))
+                elif unknown:
+                    ck.missing(rule, '%s reuses a value stored in module-level `%s` when %s does not hold; whether that test compares the contents of %s is not recognised'
+                               % (q, name, tests, ', '.join(unknown)))
+                else:
+                    ck.missing(rule, '%s keeps a memo in module-level `%s` keyed on the contents of %s: consistency of key and value stores not decided'
+                               % (q, name, ', '.join(sorted(dep))))
+        if not n_found:
+            ck.ok(rule, mod, None, '%s: %d functions, module state written: %s' % (mod.rel, len(per_fn), sorted(writes) or 'none'),
+                  'no returned value is read from state that outlives the call (results depend on the arguments only)')
+    ck.floor(rule, n_scanned, 4, 'functions scanned for results read from module state')
+
+
 def check(ck):
     mod = ck.repo.mod(TP)
+    d3_hidden_state(ck, [mod, ck.repo.mod(CO)])
     roles, why = helper_roles(mod)
     d1_fluxes(ck, mod, roles)
     d2_net(ck, mod)
